@@ -255,7 +255,11 @@ func genC04(r *Rand, tier string) *Case {
 		if cc.Programs == nil {
 			cc.Programs = map[string]*Program{}
 		}
+		truncated := cc.Variant == "copy-truncated"
 		cc.Expect = nil
+		if truncated {
+			cc.Expect = map[string]any{"copy_truncated": true}
+		}
 		cc.Variant = "sized-messages"
 		c = cc
 	case kind == 7: // corrupted binary COPY rows through the documented row reader
@@ -446,6 +450,16 @@ func c04Judge(c *Case, r *Result, base *Result) []Violation {
 				fc := pgwire.Kinds(t.Msgs)
 				if !strings.HasPrefix(bc, fc) {
 					add("output-not-prefix", "output-not-prefix "+k, fmt.Sprintf("conn %d with fault %+v sent output the fault-free session never sent: %q vs %q", i, cs.cc.Faults[0], pgwire.Kinds(t.Msgs), pgwire.Kinds(ParseOut(base.Conns[i]).Msgs)))
+				}
+			}
+		}
+		// S5'': a COPY stream cut off inside a message is not a stream that ended:
+		// the handler is never handed the end-of-stream signal of CopyDone
+		if v, _ := c.Expect["copy_truncated"].(bool); v {
+			for _, e := range cs.Events {
+				if e.K == "op" && strings.HasSuffix(e.S, "copyread eof") {
+					add("truncated-copy-stream-reported-as-complete", "truncated-copy-stream-reported-as-complete", fmt.Sprintf("conn %d: the peer went away inside a message of a COPY stream (CopyDone was never sent) and the handler was told that the stream had ended", i))
+					break
 				}
 			}
 		}
@@ -707,7 +721,7 @@ func c04Fixed(tier string) []*Case {
 func init() {
 	register(&Prop{
 		ID: "C04", Level: "fault_enumeration", QuickS: 30, ThoroughS: 480,
-		Rule:       "fault enumeration: for each of a fixed corpus of 38 sessions (generated with fixed seeds over every phase: startup with/without authentication and middleware, SSLRequest declined, CancelRequest, simple and extended queries with failing handlers, COPY text and binary through the row reader, oversized and unknown messages) EVERY transport fault position is enumerated: fail the k-th read (all k), end the input after the n-th byte (all n), fail the k-th write with 0 / 1 / all-but-one bytes accepted (all k); plus enumerated truncations of a Bind and a Query at every byte, Bind value lengths beyond the body, counts 0xFFFF; plus seeded cases: random bytes on a fresh connection and after a valid startup, startup-phase packets with perturbed lengths and protocol versions, generated sessions with one field-level mutation (length word 0-3/L+1/2^31-1/2^32-1, truncation, missing NUL, counts 0xFFFF, value length beyond body, format codes other than 0 and 1, random type byte, 1-4 GiB declared with little sent), hostile texts through ParseParameters, corrupted binary COPY rows, and seeded fault combinations; oracles: the worker process survives (a death is attributed to the recorded case and confirmed alone), the hostile connection is closed and the server issues no further transport operation within the budget, a bystander session accepted afterwards on the same Server is served exactly as the model says and Serve returns nil, per-step allocation stays below 4L+16MiB, a faulted connection's callbacks/output are a prefix of the fault-free ones, nothing is executed for a certainly-malformed message; every case counts as TLS negotiation broken off by the peer after 'S' (alert records, truncated ClientHello, other record types, junk); peers that stall before their startup is complete while a bystander connects; final messages of 64 KiB - 400 KB whose every field arrives but whose declared length does not (nothing is executed for them); messages around and beyond the size limit behind legal traffic of every size (the generator of C10); non-trivial; distinct = distinct case content hashes; flood scenarios (enumerated and seeded): 250k-1M body-less messages in COPY, ready and discarding state with bounds on goroutine-stack and live-heap growth",
+		Rule:       "fault enumeration: for each of a fixed corpus of 38 sessions (generated with fixed seeds over every phase: startup with/without authentication and middleware, SSLRequest declined, CancelRequest, simple and extended queries with failing handlers, COPY text and binary through the row reader, oversized and unknown messages) EVERY transport fault position is enumerated: fail the k-th read (all k), end the input after the n-th byte (all n), fail the k-th write with 0 / 1 / all-but-one bytes accepted (all k); plus enumerated truncations of a Bind and a Query at every byte, Bind value lengths beyond the body, counts 0xFFFF; plus seeded cases: random bytes on a fresh connection and after a valid startup, startup-phase packets with perturbed lengths and protocol versions, generated sessions with one field-level mutation (length word 0-3/L+1/2^31-1/2^32-1, truncation, missing NUL, counts 0xFFFF, value length beyond body, format codes other than 0 and 1, random type byte, 1-4 GiB declared with little sent), hostile texts through ParseParameters, corrupted binary COPY rows, and seeded fault combinations; oracles: the worker process survives (a death is attributed to the recorded case and confirmed alone), the hostile connection is closed and the server issues no further transport operation within the budget, a bystander session accepted afterwards on the same Server is served exactly as the model says and Serve returns nil, per-step allocation stays below 4L+16MiB, a faulted connection's callbacks/output are a prefix of the fault-free ones, nothing is executed for a certainly-malformed message; every case counts as TLS negotiation broken off by the peer after 'S' (alert records, truncated ClientHello, other record types, junk); peers that stall before their startup is complete while a bystander connects; COPY streams cut off inside an oversized message (the handler is never told the stream ended); final messages of 64 KiB - 400 KB whose every field arrives but whose declared length does not (nothing is executed for them); messages around and beyond the size limit behind legal traffic of every size (the generator of C10); non-trivial; distinct = distinct case content hashes; flood scenarios (enumerated and seeded): 250k-1M body-less messages in COPY, ready and discarding state with bounds on goroutine-stack and live-heap growth",
 		Exhaustive: "every read index, input byte offset and write index (x3 accepted-byte counts) of each corpus session; every truncation offset of the handcrafted Bind and Query",
 		Components: append(append([]string{}, e1Components...), "E2 share (the variants that pin Server.Close or other connections against a running session): seeded scheduler harness/kernel.go decides every interleaving of connection goroutines and Close callers at transport operations, callbacks, hand-placed hooks and spliced synchronisation points"), Assumptions: append(append([]string{}, commonAssumptions...), "allocation failure and Accept errors are not injected (not injectable in Go / no property speaks about them)"),
 		Fixed: c04Fixed, Gen: genC04, Check: checkC04,
